@@ -13,6 +13,13 @@ fn main() {
     }
     engine::install_panic_hook();
     engine::capture_stdout();
+    if args[1] == "--child" {
+        std::process::exit(props::xproc::child_main(&args[2]));
+    }
+    if args[1] == "--genstats" {
+        mtverif::gen::genstats();
+        return;
+    }
     let id = args[1].to_uppercase();
     let code = if args[2] == "--replay" {
         if args.len() < 4 {
